@@ -16,7 +16,7 @@ from .world import World, LIB_AXIOMS
 
 VERIF = os.path.dirname(os.path.dirname(os.path.abspath(__file__)))
 
-CONTRACT_MODULES = ['contracts.base', 'contracts.adb_message', 'contracts.transport', 'contracts.iomanager']
+CONTRACT_MODULES = ['contracts.base', 'contracts.adb_message', 'contracts.transport', 'contracts.iomanager', 'contracts.store']
 
 
 def load_contracts():
@@ -34,6 +34,48 @@ def load_contracts():
             importlib.import_module(m)
 
 
+class Ob(object):
+    """A serialisable obligation query."""
+    def __init__(self, name, props, smt2, expr, where, kind, path, meta):
+        self.name, self.props, self.smt2, self.expr, self.where, self.kind, self.path, self.meta = name, props, smt2, expr, where, kind, path, meta
+
+
+_RUN = None
+
+
+def _gen_worker(task):
+    key, twin, variant = task
+    run = _RUN
+    c = dsl.CONTRACTS[key]
+    out = {'function': None, 'obligations': [], 'covers': [], 'undecided': [], 'used_axioms': [], 'sf_axioms': [], 'paths': 0, 'fchecks': 0}
+    w = run.world(twin)
+    ex = Executor(run.sources, twin, w)
+    t0 = time.time()
+    try:
+        obs = ex.verify(c, variant, only_props=[run.prop])
+        module, fn = run.sources.function(c.real[twin])
+        for o in obs:
+            out['obligations'].append(Ob(o.name, sorted(o.props), solve.build_query(o.pc, o.claim), o.expr, o.where, o.kind, list(o.path),
+                                         {k: (v if isinstance(v, (str, int, float, bool, type(None))) else repr(v)) for k, v in o.meta.items()}))
+        for name, pc, props in ex.covers:
+            if run.prop in props:
+                out['covers'].append((name, solve.build_sat_query(pc)))
+        out['function'] = {'contract': c.key, 'twin': twin, 'variant': variant, 'function': c.real[twin], 'file': module.path,
+                           'line': fn.lineno, 'source_hash': source.func_source_hash(fn), 'paths': ex.stats['paths'],
+                           'obligation_queries': len(obs), 'gen_seconds': round(time.time() - t0, 3)}
+        out['paths'] = ex.stats['paths']
+        out['fchecks'] = ex.stats['feasibility_checks']
+    except Unsupported as e:
+        out['undecided'].append(('%s[%s]' % (c.key, twin), 'unsupported: %s' % e))
+    except KeyError as e:
+        out['undecided'].append(('%s[%s]' % (c.key, twin), 'stale contract or missing function: %r' % (e,)))
+    except RecursionError:
+        out['undecided'].append(('%s[%s]' % (c.key, twin), 'recursion limit'))
+    out['used_axioms'] = sorted(w.used_axioms)
+    out['sf_axioms'] = sorted(SF.USED_AXIOMS)
+    return out
+
+
 class Run(object):
     def __init__(self, prop, tier='quick', seed=0, repo=None, jobs=None, only=None):
         self.prop = prop
@@ -42,11 +84,13 @@ class Run(object):
         self.jobs = jobs
         self.only = only
         self.sources = source.Sources(repo)
-        self.obligations = []       # (Obligation, twin)
+        self.obligations = []       # Ob
         self.covers = []
         self.undecided = []         # (what, reason)
         self.functions = []
         self.worlds = {}
+        self.used_axioms = set()
+        self.sf_axioms = set()
         self.stats = {'paths': 0, 'feasibility_checks': 0}
 
     def world(self, twin):
@@ -56,8 +100,9 @@ class Run(object):
             hooks.install(self.worlds[twin])
         return self.worlds[twin]
 
-    def generate(self):
+    def tasks(self):
         seen_refs = set()
+        out = []
         for c in dsl.CONTRACTS.values():
             if self.prop not in c.props or c.trusted or not c.real:
                 continue
@@ -69,38 +114,45 @@ class Run(object):
                     continue
                 seen_refs.add((c.key, ref))
                 for variant in c.variants:
-                    self.generate_one(c, twin, variant)
+                    out.append((c.key, twin, variant))
+        return out
 
-    def generate_one(self, c, twin, variant):
-        w = self.world(twin)
-        ex = Executor(self.sources, twin, w)
-        t0 = time.time()
-        try:
-            obs = ex.verify(c, variant, only_props=[self.prop])
-            module, fn = self.sources.function(c.real[twin])
-            self.functions.append({'contract': c.key, 'twin': twin, 'variant': variant, 'function': c.real[twin], 'file': module.path,
-                                   'line': fn.lineno, 'source_hash': source.func_source_hash(fn), 'paths': ex.stats['paths'],
-                                   'obligation_queries': len(obs), 'gen_seconds': round(time.time() - t0, 3)})
-            for o in obs:
-                self.obligations.append(o)
-            for name, pc, props in ex.covers:
-                if self.prop in props:
-                    self.covers.append((name, pc))
-            self.stats['paths'] += ex.stats['paths']
-            self.stats['feasibility_checks'] += ex.stats['feasibility_checks']
-        except Unsupported as e:
-            self.undecided.append(('%s[%s]' % (c.key, twin), 'unsupported: %s' % e))
-        except KeyError as e:
-            self.undecided.append(('%s[%s]' % (c.key, twin), 'stale contract or missing function: %r' % (e,)))
-        except RecursionError:
-            self.undecided.append(('%s[%s]' % (c.key, twin), 'recursion limit'))
+    def generate(self):
+        global _RUN
+        import multiprocessing
+        tasks = self.tasks()
+        # make sure the sources the workers need are parsed (and hashed) in the parent too
+        for key, twin, variant in tasks:
+            try:
+                self.sources.function(dsl.CONTRACTS[key].real[twin])
+            except (KeyError, OSError, SyntaxError):
+                pass
+        _RUN = self
+        jobs = self.jobs or min(16, os.cpu_count() or 4)
+        if jobs == 1 or len(tasks) <= 1:
+            results = [_gen_worker(t) for t in tasks]
+        else:
+            ctx = multiprocessing.get_context('fork')
+            with ctx.Pool(min(jobs, len(tasks))) as pool:
+                results = pool.map(_gen_worker, tasks, chunksize=1)
+        for out in results:
+            if out['function']:
+                self.functions.append(out['function'])
+            self.obligations.extend(out['obligations'])
+            self.covers.extend(out['covers'])
+            self.undecided.extend(out['undecided'])
+            self.used_axioms.update(out['used_axioms'])
+            self.sf_axioms.update(out['sf_axioms'])
+            self.stats['paths'] += out['paths']
+            self.stats['feasibility_checks'] += out['fchecks']
 
     def lemmas(self):
         out = []
+        self.world('sync')        # loads the real constants module (dsl.CONSTANTS)
         for name, (props, build, doc) in dsl.LEMMAS.items():
             if self.prop in props:
                 pc, claim = build(z3, SF, V)
-                out.append((name, pc, claim, doc))
+                out.append((name, solve.build_query(pc, claim), doc))
         return out
 
     def framescans(self):
@@ -116,7 +168,3 @@ class Run(object):
                     if problems is not None:
                         out.append(('%s[%s]' % (name, twin), problems, doc))
         return out
-
-
-def group_name(o):
-    return o.name
